@@ -351,3 +351,46 @@ def pvalue_blocks(B, env, z_blocks):
         return lambda x, y: 2 * (1 - B.Phi(abs(B.rd(z_blocks[a][b], x, y))))
 
     return blocks_from(B, env, cell(0, 0), cell(0, 1), cell(1, 0), cell(1, 1))
+
+
+# ---- C15 share of sum -------------------------------------------------------------------
+
+
+def nz(B, x):
+    return B.ite(B.isnan(x), 0.0, x)
+
+
+def sum_measure_blocks(B, env, S):
+    """sum measure with subtotals: signed merges, NaN for differences (both directions)"""
+    from .matrix_subtotals_c import sum_blocks_spec
+
+    return sum_blocks_spec(B, S, env.R, env.C, env.rows, env.cols, True, True)
+
+
+def share_sum_blocks(B, env, S, direction):
+    """C15: every share divides by the total of the cell's row vector / column vector / the
+    whole table, each total taken over *base* rows and columns only."""
+    sb = sum_measure_blocks(B, env, S)
+    R, C = env.R, env.C
+    rd = B.rd
+
+    def row_total(a, x):  # x: base row i (a=0) or row subtotal s (a=1): total over base columns
+        return B.Sum(C, lambda j: nz(B, rd(sb[a][0], x, j)))
+
+    def col_total(b, y):
+        return B.Sum(R, lambda i: nz(B, rd(sb[0][b], i, y)))
+
+    table_total = B.Sum(R, lambda i: B.Sum(C, lambda j: nz(B, rd(S, i, j))))
+
+    def cell(a, b):
+        def f(x, y):
+            v = rd(sb[a][b], x, y)
+            if direction == "row":
+                return v / row_total(a, x)
+            if direction == "column":
+                return v / col_total(b, y)
+            return v / table_total
+
+        return f
+
+    return blocks_from(B, env, cell(0, 0), cell(0, 1), cell(1, 0), cell(1, 1))
